@@ -1498,6 +1498,8 @@ class sptensor:
         array([[ 0.4718..., -0.8816...],
                [-0.8816..., -0.4718...]])
         """
+        if not 0 <= n < self.ndims:
+            assert False, "Mode n must be in [0, ndims)"
         old = np.setdiff1d(np.arange(self.ndims), n).astype(int)
         # tnt calculation is a workaround for missing sptenmat
         if old.size == 0:
